@@ -28,9 +28,6 @@ package gohbase
 //@   trusted "result cells come from proto.Unmarshal (repeated message fields have no nil elements)"
 //@   ensures r1 == nil ==> r0 != nil && forall(k, 0 <= k && k < len(r0.Cells), r0.Cells[k] != nil)
 
-//@ func gohbase.(*client).Increment
-//@   panics never[C11]
-
 // ---- SendBatch: positional, self-consistent results (C07); each call once, retry only retryable classes (C12) ----
 
 // every call of the slice has a slot in results, and distinct calls have distinct slots
@@ -84,6 +81,9 @@ package gohbase
 //@   loop 1 invariant wfcUnretry(rpcs, results, rpcToRes, i, unretryableError)
 //@   ensures[C07] wfcUnretry2(rpcs, results, rpcToRes, retryables, len(rpcs), unretryableError || ghostat("ctxdone", ctx) == 1)
 //@   loop 1 invariant wfcUnretry2(rpcs, results, rpcToRes, retryables, i, unretryableError)
+// every result of one of the three retry classes - connection dead, region not served here, server asks to retry - puts
+// its call on the retry list (C04: a batch survives the loss of a server or the move of a region like a single request does)
+//@   loop 1 invariant[C04,C12] forall(k, 0 <= k && k < i && retryClass(results[rpcToRes[rpcs[k]]].Error), ghostat("retrymark", rpcs[k]) == ghost("round"))
 //@   loop 1 exit-assert wfcUnretry2(rpcs, results, rpcToRes, retryables, canceledIndex, unretryableError)
 //@   loop 2 invariant wfcUnretry2(rpcs, results, rpcToRes, retryables, canceledIndex, unretryableError)
 //@   loop 1 exit-assert wfcUnretry(rpcs, results, rpcToRes, canceledIndex, unretryableError)
@@ -229,7 +229,7 @@ package gohbase
 //@   loop "for" invariant len(retries) == 0 && backoff >= 0
 //@   loop "for" step[C07] forall(j, 0 <= j && j < len(res) && athead("for", res[j].Error) == nil, res[j].Error == nil && res[j].Msg == athead("for", res[j].Msg))
 //@   at call findClients#1 ghost round == ghost("round") + 1
-//@   loop "for i, rpc := range batch"#2 invariant len(res) == len(old(batch)) && sbFrame(res, athead("for", batch), rpcToRes, len(res)) && sbOwn(res, old(batch), len(res))
+//@   loop "for i, rpc := range batch"#2 invariant[C07] len(res) == len(old(batch)) && sbFrame(res, athead("for", batch), rpcToRes, len(res)) && sbOwn(res, old(batch), len(res))
 //@   loop "for client, rpcs := range rpcByClient" invariant carOK(cAndRs, rpcByClient) && forall(t, 0 <= t && t < len(cAndRs), visited(cAndRs[t].client))
 //@   loop "for client, rpcs := range rpcByClient" invariant forall(rc, visited(rc) ==> exists(t, 0 <= t && t < len(cAndRs) && cAndRs[t].client == rc))
 //@   loop "for _, cAndR := range cAndRs" invariant len(res) == len(old(batch)) && marksBelow()
@@ -305,14 +305,34 @@ package gohbase
 // ---- retry pacing of a single request (C17) and which errors are retried (C04) ----
 // Ghost counters: attempts (requests handed to a connection), nsleeps (back-off waits), nsre (retries after a
 // NotServingRegionError, which are paced by the re-establishment of the region instead).
+// one attempt on a connection (C04): the outcome of the attempt is handed back as it is - response and error exactly as
+// received - and an error is first reported to the failure handling for the region the call is bound to and for the very
+// connection the attempt was made on (not whatever connection the region has by now)
 //@ func gohbase.(*client).sendRPCToRegionClient
-//@   trusted "one attempt on a connection (ghost counter); effects on caches summarised as ghost regionstate"
-//@   modifies X.attempts, X.regionstate, X.ctxdone, X.callregion
+//@   requires rpc != nil
+//@   modifies X.attempts, X.regionstate, X.ctxdone, X.callregion, X.unavail, X.token, X.regclient, D.map[hrpc.RegionClient]map[hrpc.RegionInfo]struct{}, C.map[hrpc.RegionClient]map[hrpc.RegionInfo]struct{}
 //@   ensures ghost("attempts") == old(ghost("attempts")) + 1
+//@   at call handleResultError#1 assert[C04,C20] arg0 == res.Error && arg2 == rc
+//@   at call handleResultError#1 assume-shared ghostat("callregion", rpc) != nil && rccNonNil(c.clients)
+//@   at return 2 assert[C04] r0 == res.Msg && r1 == res.Error
 
 //@ func hrpc.Call.Description() (r)
 //@   pure
 
+// the public single-row operations (C04: an error of the request is handed to the caller as it is; C02: the result is
+// the one that came back for this request): thin wrappers around SendRPC
+//@ func gohbase.(*client).Get
+//@   requires sleepAndIncreaseBackoffOverride == nil && establishRegionOverride == nil && c.logger != nil && c.adminRegionInfo != nil && c.metaRegionInfo != nil
+//@   requires g != nil
+//@   at return 1 assert[C04] r1 == err
+//@   ensures[C04,C02] r1 == nil ==> r0 != nil
+//@ func gohbase.(*client).Increment
+//@   requires sleepAndIncreaseBackoffOverride == nil && establishRegionOverride == nil && c.logger != nil && c.adminRegionInfo != nil && c.metaRegionInfo != nil
+//@   requires i != nil
+//@   panics never[C11]
+//@   at return 1 assert[C04] r1 == err
+// the new value is the 8-byte big-endian number in the single cell that came back
+//@   at return 4 assert[C02] len(r.Cells) == 1 && len(r.Cells[0].Value) == 8 && r0 == be64(r.Cells[0].Value) - ite(be64(r.Cells[0].Value) >= 9223372036854775808, 18446744073709551616, 0)
 //@ func gohbase.(*client).SendRPC
 //@   requires sleepAndIncreaseBackoffOverride == nil && establishRegionOverride == nil && rpc != nil
 //@   requires c.logger != nil && c.adminRegionInfo != nil && c.metaRegionInfo != nil
@@ -375,6 +395,13 @@ package gohbase
 //@   ensures[C04,C09,C17] r2 == nil || r2 == TableNotFound || r2 == ErrClientClosed || ghostat("ctxdone", ctx) == 1
 //@   ensures[C09] r2 == nil ==> r0 != nil && (r0 == c.adminRegionInfo || r0 == c.metaRegionInfo || (ghostat("unavail", r0) == 0 && !was(allocated(r0))))
 //@   ensures[C01] r2 == nil && !special(c, table) ==> routes(r0, table, key)
+// the two fixed locations come from ZooKeeper (C04: the master and hbase:meta are found again after they move): the
+// admin client asks for the master node and gets the master descriptor, a request to hbase:meta asks for the
+// meta-region-server node and gets the meta descriptor
+//@   at call zkLookup#1 assert[C04,C01] arg1 == "/master"
+//@   at call zkLookup#2 assert[C04,C01] arg1 == "/meta-region-server"
+//@   ensures[C04,C01] r2 == nil && c.clientType == "MasterService" ==> r0 == c.adminRegionInfo
+//@   ensures[C04,C01] r2 == nil && c.clientType != "MasterService" && seqeq(table, metaTableName) ==> r0 == c.metaRegionInfo
 
 // a region found through hbase:meta is the one handed back for routing (after being entered into the cache)
 //@ func gohbase.(*client).findRegion
@@ -463,9 +490,19 @@ package gohbase
 //@   modifies X.attempts, X.callregion, X.ctxdone
 //@   at return 2 assert[C17,C04,C01] !typeis(res.Error, "region.ServerError") && !typeis(res.Error, "region.NotServingRegionError") && !typeis(res.Error, "region.RetryableError")
 //@   at return 1 assert[C17,C04,C01] res.Error != nil
+// (assumed of a connection: queueing a request counts as one attempt; its outcome arrives on the call's result channel)
+//@ func hrpc.RegionClient.QueueRPC(rpc)
+//@   modifies X.attempts
+//@   ensures ghost("attempts") == old(ghost("attempts")) + 1
+// hands the call to the connection once and waits for its result or for the context: what it returns without an error is
+// what was received on the call's own result channel; it returns an error only when the context it waits on is done
 //@ func gohbase.sendBlocking
-//@   trusted "hands the call to the connection (counted as an attempt) and waits for its result or for the context"
+//@   requires rpc != nil
 //@   modifies X.attempts, X.ctxdone
+//@   ensures ghost("attempts") == old(ghost("attempts")) + 1
+// (both callers wait on the call's own context; waiting on another one, a cancellation would come back as "no error")
+//@   ensures[C02,C04] r1 == nil && ctx == rpc.Context() ==> recvd(rpc.ResultChan(), r0)
+//@   ensures[C04] r1 != nil ==> ghostat("ctxdone", ctx) == 1
 //@ func gohbase.probeKey
 //@   requires reg != nil
 //@   modifies nothing
@@ -514,7 +551,7 @@ package gohbase
 //@   loop 1 invariant[C17] backoff == 0 || onSched(backoff)
 // every attempt but the first resolves the location again: a region that moved is not probed at its stale address for
 // ever (the safety part of "a request whose region moved eventually succeeds", C04)
-//@   loop 1 invariant[C04] backoff != 0 ==> addr == ""
+//@   loop 1 invariant[C04,C09] backoff != 0 ==> addr == ""
 // a connection is taken down only when it has failed itself: after a probe, only on a connection-level error (a
 // retryable answer or "not serving" says nothing about the connection, which other regions share) (C20)
 //@   at call clientDown#1 assert[C20] typeis(err, "region.ServerError")
@@ -594,6 +631,9 @@ package gohbase
 // issued; delivery is the network's). Object invariant: closed ==> no region scanner id is held.
 //@ func gohbase.(*scanner).closeRegionScanner
 //@   requires s.rpc != nil
+// closing never waits for the server (C14: "Close never blocks"): the close request is handed to a goroutine of its own;
+// sent in line, Close - and every Next that ends the scan - would hang for as long as the server does not answer
+//@   spawnonly[C14] SendRPC "the close request has no deadline"
 //@   modifies F.gohbase.scanner.curRegionScannerID, X.closereq
 //@   panics never[C14]
 // afterwards no region scanner is held; if one was held and the scan request itself did not carry `close`, exactly one
